@@ -5,6 +5,7 @@ package codecmc
 // depend on first-use order inside a process).
 
 import (
+	"crypto/sha256"
 	"bytes"
 	"crypto/rand"
 	"encoding/binary"
@@ -707,6 +708,15 @@ func TestC19(t *testing.T) {
 		keys = append(keys, kp{a, b})
 	}
 	msgs := [][]byte{[]byte("a"), []byte("block one"), bytes.Repeat([]byte{7}, 100)}
+	// message lengths that coincide with digest sizes, and the digests of other messages (a signature is for the
+	// message, whatever it looks like), plus the empty message
+	for _, m := range [][]byte{[]byte("block one"), bytes.Repeat([]byte{7}, 100)} {
+		d := sha256.Sum256(m)
+		msgs = append(msgs, d[:])
+		dd := sha256.Sum256(d[:])
+		msgs = append(msgs, dd[:])
+	}
+	msgs = append(msgs, bytes.Repeat([]byte{9}, 32), bytes.Repeat([]byte{9}, 64), []byte{})
 	type signer interface {
 		Sign([]byte) ([]byte, error)
 	}
